@@ -10,13 +10,9 @@ from lib.locals import local_inits as _local_inits, through_locals as _through_l
 
 TECHNIQUE = ("call-graph purity from parser::parse (with a positive control), MIR dominance of the remaining-input and error-log tests over the Ok exit, "
              "who-may-write for ParseString.cursor plus a sibling rule on the column/row bookkeeping, possibly-empty merge_tokens().unwrap() detection, and a "
-<<<<<<< HEAD
-             "nullability fixpoint over the nom combinators deciding progress of every hand-written parser loop; R13: enumeration of every MIR Assert terminator and panicking-API call on "
+             "nullability fixpoint over the nom combinators deciding progress of every hand-written parser loop (per back path: lib/parseloop.py); R13: enumeration of every MIR Assert terminator and panicking-API call on "
              "the parse path with guard discharge by dominating conditional edges over symbolic operand trees (lib/mirguard.py)")
-=======
-             "nullability fixpoint over the nom combinators deciding progress of every hand-written parser loop")
 from rules.c09_loops import EXPLANATION as _R5_PER_PATH   # manifest sentence of the per-path clause of R5
->>>>>>> 391e67b6994bf70620c7c4886a415463c5931b36
 EXPLANATION = (
     "Decides structural clauses of C09: (R1) nothing reachable from parser::parse touches files, environment, network, process, clock or randomness (same "
     "text, same outcome; a positive control on the file loader proves the detector fires); (R2) the Ok(tree) exit of parse() is dominated by a test of the "
